@@ -1,7 +1,12 @@
 (* JSON values as the decoders see them: members of an object are ORDERED and may be DUPLICATED
    (serde's derived visitors and serde's buffered `Content` both see every member in wire order).
    Numbers: integer tokens are `JNum z`; every other number token is an opaque `JFlt tok`
-   (its text).  Strings (and member names) are Coq strings = byte sequences after unescaping. *)
+   (its text).  Strings (and member names) are Coq strings = byte sequences AFTER unescaping:
+   a member name is a decoded JSON string, so "m\u006fre" and "more" are the same name and a frame
+   that spells a name with escape sequences is the same jval.  Nothing in the models may depend on
+   how a NAME was spelled (the correspondence run feeds escaped spellings of every name, through
+   serde_json::from_str, from_value, from_reader and the connection); only for string VALUES
+   decoded into a borrowed &str does the spelling matter (needs_escape below). *)
 From Coq Require Export List ZArith NArith Bool Arith Lia Ascii String.
 Export ListNotations.
 Open Scope string_scope.
